@@ -353,15 +353,24 @@ impl Check for C06 {
         "C06"
     }
     fn families(&self, _tier: Tier) -> Vec<&'static str> {
-        vec!["schedule", "schedule", "faults", "schedule", "energy", "schedule", "faults", "cli", "schedule"]
+        vec!["schedule", "schedule", "faults", "schedule", "energy", "schedule", "faults", "cli", "schedule", "sink-faults", "schedule"]
     }
     fn default_runs(&self, tier: Tier) -> u64 {
         match tier {
-            Tier::Quick => 8000,
+            Tier::Quick => 8800,
             Tier::Thorough => 150000,
         }
     }
     fn gen(&self, seed: u64, family: &str, tier: Tier) -> Case {
+        if family == "sink-faults" {
+            // one response for every query also means: a response that was written (its run() returned Ok) stays
+            // written, whatever happens to the file in a later run (a write that fails once, a disk that fills up)
+            use crate::driver::Check;
+            let mut c = super::c19::C19.gen(seed ^ 0x51C06, "hard-faults", tier);
+            c.check = "C06".into();
+            c.family = "sink-faults".into();
+            return c;
+        }
         if family == "cli" {
             // "one response for every query" through the command-line runner: the query file is read in chunks
             // (rows that are no query at all, a read that fails once), one run() per chunk, responses in the file
@@ -376,7 +385,7 @@ impl Check for C06 {
     fn run(&self, case: &Case, fatal_fd: i32) -> ChildResult {
         let probe = StageProbe { batches: case.batches.clone(), parallelism: case.run_parallelism.unwrap_or(case.world.parallelism), out: Value::Null };
         let obs = execute(case, ExecOpts { reference: true, trace: false, log_clock: false, explore_build: false }, Box::new(probe), fatal_fd);
-        let (violations, mut reach, nontrivial) = if case.family == "cli" { super::c19::judge(case, &obs) } else { judge(case, &obs) };
+        let (violations, mut reach, nontrivial) = if case.family == "cli" || case.family == "sink-faults" { super::c19::judge(case, &obs) } else { judge(case, &obs) };
         reach.insert("workers_gt1".into(), (case.workers > 1) as u64);
         world_reach(&case.world, &mut reach);
         reach.insert("preemptions".into(), obs.stats.preemptions);
